@@ -4,3 +4,4 @@ import MillerModel.Props.C08
 import MillerModel.Props.C01
 import MillerModel.Props.C11
 import MillerModel.Props.C12
+import MillerModel.Props.C03
